@@ -67,8 +67,18 @@ harness_key() {
   } | sha256sum | cut -c1-12
 }
 
+# A locale whose LC_NUMERIC uses ',' as the decimal point (environment fault for the CLI clauses of qhist).
+build_locale() {
+  local out="$VERIF/build/locale/xx_XX"
+  [ -f "$out/LC_NUMERIC" ] && return 0
+  mkdir -p "$VERIF/build/locale"
+  command -v localedef >/dev/null 2>&1 || return 0
+  localedef -c -f "$VERIF/sim/data/locale/ascii.cm" -i "$VERIF/sim/data/locale/comma.src" "$out" >/dev/null 2>&1 || true
+}
+
 build_one() {
   local engine="$1" flavour="$2"
+  build_locale
   local key hkey dir cc
   key="$(src_key "$flavour")"
   hkey="$(harness_key)"
@@ -105,7 +115,7 @@ build_one() {
       if [ "$engine" = "updsim" ]; then extra_inc="-I$VERIF/shim -DCPPHTTPLIB_OPENSSL_SUPPORT"; fi
       seam=""
       if [ "$engine" = "gcsim" ] && [ "$flavour" = "tsan" ]; then seam="-DGCS_ATOMIC_SEAM $SEAM_WRAPS"; fi
-      $cc $extra_inc $seam $common -DVERIF_FLAVOUR="\"$flavour\"" -DVERIF_REPO_SRC="\"$SRC\"" "$VERIF/sim/engines/$engine.cpp" ${objs[@]+"${objs[@]}"} $(link_extra "$engine") -o "$bin.tmp"
+      $cc $extra_inc $seam $common -DVERIF_ROOT="\"$VERIF\"" -DVERIF_FLAVOUR="\"$flavour\"" -DVERIF_REPO_SRC="\"$SRC\"" "$VERIF/sim/engines/$engine.cpp" ${objs[@]+"${objs[@]}"} $(link_extra "$engine") -o "$bin.tmp"
       mv "$bin.tmp" "$bin"
       # drop older binaries of this engine in this dir
       ls -1t "$dir/$engine"-* 2>/dev/null | grep -v '\.tmp$' | tail -n +3 | xargs -r rm -f
